@@ -15,8 +15,13 @@
 EXTENDS Integers, FiniteSets
 
 Mappings == {"GM", "CAM"}
-Devs == {"none", "password", "nonce", "mapkey", "mapkey-echo", "kakey", "kakey-echo", "token", "ecad",
+Devs == {"none", "password", "nonce", "mapkey", "mapkey-echo", "kakey", "kakey-echo", "reflect", "token", "ecad",
          "sw-mse", "sw-nonce", "sw-map", "sw-ka", "sw-token", "cardsec-key"}
+\* "reflect": a counterpart that knows NO password: it relays the nonce / mapping steps of a chip (or makes them up),
+\* sends the terminal's own key agreement key back and then the terminal's own token T_IFD as T_IC. With
+\* PK_IC = PK_IFD both tokens are MACs of the same key over the same point, so only the comparison of the two public
+\* keys (Doc 9303-11 4.4.1 d) stands between it and success.  EchoCheck = FALSE is the design without that comparison.
+CONSTANT EchoCheck
 
 VARIABLES mapping, dev, done, termResult, camResult, termSM, chipSM, chipCompleted, chipCamGenuine
 
@@ -56,7 +61,7 @@ Gterm == MapGen(TermNonce, DH(mapT, PubMapC_term))
 PubKaT == Pt(Gterm, {kaT})                                 \* terminal's key agreement key (on ITS generator)
 PubKaC_chip == Pt(Gchip, {kaC})
 PubKaC_term == CASE dev = "kakey" -> Pt(Gchip, {adv})
-                 [] dev = "kakey-echo" -> PubKaT
+                 [] dev \in {"kakey-echo", "reflect"} -> PubKaT
                  [] OTHER -> PubKaC_chip
 
 Kterm == DH(kaT, PubKaC_term)
@@ -66,13 +71,13 @@ Kchip == IF Gterm = Gchip THEN DH(kaC, Pt(Gchip, {kaT})) ELSE Pt(Gen("mismatch",
 \* tokens: T_IFD = MAC(KSmac, PK_DH,IC) ; T_IC = MAC(KSmac, PK_DH,IFD)
 TIFD == Mac(Keys(Kterm), PubKaC_term)
 TIC_chip == Mac(Keys(Kchip), PubKaT)
-TIC_term == IF dev = "token" THEN Mac(JunkKeys, PubKaT) ELSE TIC_chip
+TIC_term == IF dev = "token" THEN Mac(JunkKeys, PubKaT) ELSE IF dev = "reflect" THEN TIFD ELSE TIC_chip
 
 \* the chip accepts the terminal's token iff it is the MAC under ITS keys over ITS public key
 ChipAcceptsToken == TIFD = Mac(Keys(Kchip), PubKaC_chip)
 
 \* terminal-side checks that abort before the token exchange
-EchoDetected == PubMapC_term = Pt(G, {mapT}) \/ PubKaC_term = PubKaT
+EchoDetected == EchoCheck /\ (PubMapC_term = Pt(G, {mapT}) \/ PubKaC_term = PubKaT)
 
 StatusError == dev \in {"sw-mse", "sw-nonce", "sw-map", "sw-ka", "sw-token"}
 
@@ -89,7 +94,8 @@ Init == /\ mapping \in Mappings /\ dev \in Devs
 Run == /\ ~done /\ done' = TRUE
        /\ LET tokenPhase == ~StatusError /\ ~EchoDetected
               chipOK == tokenPhase /\ ChipAcceptsToken                      \* else the chip answers 6300 to T_IFD
-              termOK == chipOK /\ TIC_term = Mac(Keys(Kterm), PubKaT)
+              answered == IF dev = "reflect" THEN tokenPhase ELSE chipOK       \* the reflecting counterpart answers 9000 itself
+              termOK == answered /\ TIC_term = Mac(Keys(Kterm), PubKaT)
           IN /\ chipCompleted' = chipOK
              /\ chipSM' = IF chipOK THEN Keys(Kchip) ELSE NoKeys
              /\ chipCamGenuine' = (chipOK /\ mapping = "CAM")
@@ -107,7 +113,7 @@ Next == Run \/ (done /\ UNCHANGED vars)
 Completeness == (done /\ dev = "none") => (termResult = "success" /\ chipCompleted /\ termSM = chipSM /\ termSM # NoKeys
                                            /\ (mapping = "CAM" => camResult = "success"))
 \* (b) different password or an altered nonce / mapping key / agreement key / token: failure, no session
-FailClosed == (done /\ dev \in {"password", "nonce", "mapkey", "mapkey-echo", "kakey", "kakey-echo", "token"}) =>
+FailClosed == (done /\ dev \in {"password", "nonce", "mapkey", "mapkey-echo", "kakey", "kakey-echo", "reflect", "token"}) =>
                  (termResult = "failure" /\ termSM = NoKeys /\ camResult # "success")
 \* (c) only the encrypted chip authentication data altered (or a foreign key published): CAM not successful
 CamGated == (done /\ dev \in {"ecad", "cardsec-key"}) => camResult # "success"
